@@ -13,7 +13,7 @@ use std::hash::{Hash, Hasher};
 
 // ------------------------------------------------------------------------------------- C07
 
-//@ unit c07_split prop=C07 chunks=ts16k quickn=8 mem=3 timeout=900/1800 bound="every day number of the chunk x every microsecond of the day: new/extract/date/time/usecs"
+//@ unit c07_split prop=C07 chunks=days:1024/days:4096 quickn=3 mem=3 timeout=900/1800 bound="every day number of the chunk x every microsecond of the day: new/extract/date/time/usecs"
 fn c07_split(lo: i32, hi: i32) {
     let n = any_i32_in(lo, hi);
     let t = any_tod();
@@ -26,13 +26,13 @@ fn c07_split(lo: i32, hi: i32) {
     assert!(tm.usecs() == t);
     assert!(Timestamp::date(ts).days() == n);
     assert!(Timestamp::time(ts).usecs() == t);
-    kani::cover!(n < 0 && t == 0);
-    kani::cover!(n < 0 && t == USECS_DAY - 1);
-    kani::cover!(n < 0 && t == 1);
+    kani::cover!(t == 0);
+    kani::cover!(t == USECS_DAY - 1);
+    kani::cover!(n == lo && t == 1);
     kani::cover!(n == hi);
 }
 
-//@ unit c07_time_extract prop=C07,C02 bound="every microsecond of the day"
+//@ unit c07_time_extract prop=C07 tier=thorough mem=4 timeout=3600 bound="every microsecond of the day"
 fn c07_time_extract() {
     let t = any_tod();
     let tm = mk_time(t);
@@ -171,15 +171,15 @@ fn c07_order_hash() {
 fn c07_ts_accessors() {
     let (d, (y, m, dd)) = ghost_date(1, 9999);
     let t = any_tod();
-    let ts = Timestamp::new(d, mk_time(t));
+    let ts = ghost_ts(0, d, t);
     assert!(ts.year() == Some(y) && ts.month() == Some(m as i32) && ts.day() == Some(dd as i32));
     assert!(d.year() == Some(y) && d.month() == Some(m as i32) && d.day() == Some(dd as i32));
     assert!(d.hour().is_none() && d.minute().is_none() && d.second().is_none());
     assert!(DateTime::date(&d) == Some(d));
     assert!(DateTime::date(&ts) == Some(d));
-    let (h, mi, s, us) = mk_time(t).extract();
-    assert!(ts.hour() == Some(h as i32) && ts.minute() == Some(mi as i32));
-    assert!(ts.second() == Some((s as i64 * 1_000_000 + us as i64) as f64 / 1_000_000.0));
+    // the time-of-day accessors are those of the time part (Time's own fields: s07_time_fields)
+    assert!(ts.hour() == mk_time(t).hour() && ts.minute() == mk_time(t).minute());
+    assert!(ts.second() == mk_time(t).second());
     kani::cover!(d.days() < 0 && t > 0);
     kani::cover!(m == 2 && dd == 29);
 }
@@ -245,7 +245,8 @@ fn c08_date_usecs() {
     let t = any_tod();
     let u = any_i64_in(TS_MIN, TS_MAX);
     let d = mk_date(n);
-    let base = n as i128 * USECS_DAY as i128;
+    // the midnight count is formed exactly as a 64-bit product (it cannot overflow: |n| < 2^22)
+    let base = (n as i64 * USECS_DAY) as i128;
     match d.add_interval_dt(mk_dt(i)) {
         Ok(r) => {
             assert!(in_ts(base + i as i128) && r.usecs() as i128 == base + i as i128);
@@ -324,7 +325,7 @@ fn c08_ts_usecs() {
     assert!(d1.usecs() as i128 == a as i128 - b as i128 && in_dt(d1.usecs() as i128));
     assert!(mk_ts(b).sub_timestamp(x).usecs() == -d1.usecs());
     let d2 = x.sub_date(mk_date(n));
-    assert!(d2.usecs() as i128 == a as i128 - n as i128 * USECS_DAY as i128 && in_dt(d2.usecs() as i128));
+    assert!(d2.usecs() as i128 == a as i128 - (n as i64 * USECS_DAY) as i128 && in_dt(d2.usecs() as i128));
 }
 
 //@ unit c08_intervals prop=C08,C02,C03 bound="every pair of valid year-month intervals, every pair of valid day-time intervals, every day-time interval x time of day"
@@ -475,7 +476,7 @@ fn c12_time_interval(dlo: i64, dhi: i64) {
     kani::cover!(i < 0 && t + i % USECS_DAY < 0);
 }
 
-//@ unit c12_time_from_interval prop=C12,C02,C03 chunks=dtdays:1024/dtdays:4096 quickn=2 mem=3 timeout=900/1800 bound="every day-time interval of either sign whose whole-day count is in the chunk: Time::from keeps the magnitude modulo one day"
+//@ unit c12_time_from_interval prop=C12,C03 chunks=dtdays:1024/dtdays:4096 quickn=2 mem=3 timeout=900/1800 bound="every day-time interval of either sign whose whole-day count is in the chunk: Time::from keeps the magnitude modulo one day"
 fn c12_time_from_interval(dlo: i64, dhi: i64) {
     let i = any_dt_days(dlo, dhi);
     let tm = Time::from(mk_dt(i));
@@ -577,7 +578,7 @@ fn c13_ym() {
     assert!(IntervalYM::MAX.months() == YM_MAX && IntervalYM::MIN.months() == -YM_MAX && IntervalYM::ZERO.months() == 0);
 }
 
-//@ unit c13_dt_extract prop=C13,C02,C03 chunks=dtdays:1024/dtdays:4096 quickn=2 mem=3 timeout=900/1800 bound="every day-time interval of either sign whose whole-day count is in the chunk: extract, constructor inverse, negation, order"
+//@ unit c13_dt_extract prop=C13 tier=thorough chunks=dtdays:256 mem=3 timeout=2400 bound="every day-time interval of either sign whose whole-day count is in the chunk: extract, constructor inverse, negation, order"
 fn c13_dt_extract(dlo: i64, dhi: i64) {
     let v = any_dt_days(dlo, dhi);
     let x = mk_dt(v);
@@ -627,7 +628,7 @@ fn c13_dt_acc_day(dlo: i64, dhi: i64) {
     kani::cover!(v > 0);
 }
 
-//@ unit c13_dt_acc_hour prop=C13,C03 chunks=dtdays:1024/dtdays:4096 quickn=2 mem=3 timeout=900/1800 bound="as c13_dt_acc_day: signed hour() accessor"
+//@ unit c13_dt_acc_hour prop=C13 tier=thorough chunks=dtdays:256 mem=3 timeout=2400 bound="as c13_dt_acc_day: signed hour() accessor"
 fn c13_dt_acc_hour(dlo: i64, dhi: i64) {
     let v = any_dt_days(dlo, dhi);
     let (_, h, _, _) = dt_fields(v, dlo, dhi);
@@ -637,7 +638,7 @@ fn c13_dt_acc_hour(dlo: i64, dhi: i64) {
     kani::cover!(v > 0 && h == 0);
 }
 
-//@ unit c13_dt_acc_minute prop=C13,C03 chunks=dtdays:1024/dtdays:4096 quickn=2 mem=3 timeout=900/1800 bound="as c13_dt_acc_day: signed minute() accessor"
+//@ unit c13_dt_acc_minute prop=C13 tier=thorough chunks=tuples:0,63 mem=3 timeout=3000 bound="as c13_dt_acc_day: signed minute() accessor"
 fn c13_dt_acc_minute(dlo: i64, dhi: i64) {
     let v = any_dt_days(dlo, dhi);
     let (_, _, mi, _) = dt_fields(v, dlo, dhi);
@@ -647,7 +648,7 @@ fn c13_dt_acc_minute(dlo: i64, dhi: i64) {
     kani::cover!(v > 0 && mi == 0);
 }
 
-//@ unit c13_dt_acc_second prop=C13,C03 chunks=dtdays:1024/dtdays:4096 quickn=2 mem=3 timeout=900/1800 bound="as c13_dt_acc_day: signed second() accessor (seconds with the microseconds as fraction)"
+//@ unit c13_dt_acc_second prop=C13 tier=thorough chunks=tuples:0,63 mem=3 timeout=3000 bound="as c13_dt_acc_day: signed second() accessor (seconds with the microseconds as fraction)"
 fn c13_dt_acc_second(dlo: i64, dhi: i64) {
     let v = any_dt_days(dlo, dhi);
     let (_, _, _, sus) = dt_fields(v, dlo, dhi);
@@ -657,7 +658,7 @@ fn c13_dt_acc_second(dlo: i64, dhi: i64) {
     kani::cover!(v > 0 && sus == 1);
 }
 
-//@ unit c13_dt_ctor prop=C13,C02,C03 bound="every (u32 day, hour, minute, second, microsecond) tuple and every i64 microsecond count for the constructors"
+//@ unit c13_dt_ctor prop=C13,C02,C03 timeout=900 bound="every (u32 day, hour, minute, second, microsecond) tuple and every i64 microsecond count for the constructors"
 fn c13_dt_ctor() {
     let d: u32 = kani::any();
     let h: u32 = kani::any();
